@@ -2,7 +2,7 @@ import os, sys
 sys.path.insert(0, os.path.dirname(os.path.abspath(__file__)))
 from common import *
 PROPERTY = 'C04'
-US = {'re_match': 10, 'bcmp': 14, 'strlen': 14, 'memcmp': 14}
+US = {'re_match': 10, 'bcmp': 24, 'strlen': 24, 'memcmp': 24, 'verif_mem': 70}
 HARNESSES = {'c04_span': dict(src='c05_tracer.cc', defines=['PARENT_MODE=0', 'OTEL_INTERNAL_LOG_LEVEL=0'], overrides=TS_OVERRIDES,
              models=TS_MODELS + ['libc.c', 'cxxrt.c', 'stdstring.c', 'single_threaded.c', 'pthread_clock.c'], gen_models=gen_regex_tables)}
 QUERIES = [dict(name='span_ops_before_after_end', harness='c04_span', entry='h_span_ops', unwind=18, unwindset=US, rec_unwind=3, timeout=1500,
